@@ -51,7 +51,7 @@ type Topology struct {
 	Refs  []Ref  `json:"refs"`
 }
 
-var refNames = []string{"heads/main", "heads/dev", "heads/a_b", "tags/v1", "tags/v2", "custom/x"}
+var refNames = []string{"heads/main", "heads/dev", "heads/a_b", "tags/v1", "tags/v2", "custom/x", "heads/a/main"}
 
 // GenTopology draws a shared history that diverges.
 func GenTopology(t *rapid.T, maxExt int) Topology {
